@@ -78,6 +78,21 @@ class FieldTab:
         self._emit[t] = tags
         return tags
 
+    def can_succeed(self, t):
+        """false iff t::parse has no Ok(..) constructor at all (e.g. Field60::parse always errs)"""
+        b = self.fn(t, "parse")
+        if b is None or "body" not in b:
+            return True
+        for n in walk(b["body"]):
+            if n.get("k") == "call" and n.get("ctor") and (n.get("f") or "").endswith("::Ok"):
+                return True
+            if n.get("k") in ("call", "mcall") and not n.get("ctor") and "Result" in (n.get("t") or "") \
+                    and n.get("k") == "call" and (n.get("f") or "").startswith("fields::"):
+                # delegation to a helper returning Result<Self>
+                if (n.get("t") or "").startswith("std::result::Result<" + t):
+                    return True
+        return False
+
     def variant_emits(self, t):
         """for an option enum: {variant name: set(tags)} via the payload type"""
         out = {}
